@@ -85,7 +85,17 @@ fn run_history_src_inner(i: &Init, acts: &[Act], check_from: usize, src_len: usi
     for k in 0..i.len as usize {
         data[(i.start as usize + k) % cap] = 100.0 + k as f64;
     }
-    let ring = Bounded::from_raw_parts(i.start as usize, i.len as usize, data);
+    // the pre-filled state is produced the way a user would top a buffer up: all but the newest
+    // pre-fill frame by construction, the newest one through Extend (same logical state)
+    let ring = if i.len >= 1 {
+        let last = data[(i.start as usize + i.len as usize - 1) % cap];
+        data[(i.start as usize + i.len as usize - 1) % cap] = -7.0;
+        let mut r = Bounded::from_raw_parts(i.start as usize, i.len as usize - 1, data);
+        r.extend(Some(last));
+        r
+    } else {
+        Bounded::from_raw_parts(i.start as usize, 0, data)
+    };
     let (probe, c) = Probe::new((0..src_len).map(|n| 1.0 + n as f64).collect());
     let mut b = probe.buffered(ring);
     let mut ring_len = i.len as usize;
@@ -308,7 +318,7 @@ fn main() {
             }
         }
     }
-    ctx.rule(&format!("initial states: capacity 1..=4 (thorough 1..=5) x every prefill (start,len) x source length 0..=2cap+1 ({} states); actions next(), next_frames().take(k) for k in 0..=cap+1 (k=cap+1 observes the None), is_exhausted(), clone() (the adaptor is replaced by its clone, which must go on exactly where the original stood); unmerged: every history to depth {depth} replayed on a fresh Buffered over an instrumented source; merged: stateright BFS to fixpoint on (ring start, ring len, pulled, delivered) through witness replay, horizon two refills past the source's end; oracle: delivered stream == prefill ++ source ++ equilibrium, source pulled exactly `capacity` times when an operation finds the ring empty and never otherwise, is_exhausted == (ring empty and source exhausted), until_exhausted() from every initial state == prefill ++ source ++ pad with pad < capacity; scale probes (merged run and drain only): capacities 8 and 16 from structured (start, len, source length) states with batch sizes 0,1,cap-1,cap,cap+1; distinct by (initial state, history)", inits.len()));
+    ctx.rule(&format!("initial states: capacity 1..=4 (thorough 1..=5) x every prefill (start,len; the newest pre-fill frame added through Extend) x source length 0..=2cap+1 ({} states); actions next(), next_frames().take(k) for k in 0..=cap+1 (k=cap+1 observes the None), is_exhausted(), clone() (the adaptor is replaced by its clone, which must go on exactly where the original stood); unmerged: every history to depth {depth} replayed on a fresh Buffered over an instrumented source; merged: stateright BFS to fixpoint on (ring start, ring len, pulled, delivered) through witness replay, horizon two refills past the source's end; oracle: delivered stream == prefill ++ source ++ equilibrium, source pulled exactly `capacity` times when an operation finds the ring empty and never otherwise, is_exhausted == (ring empty and source exhausted), until_exhausted() from every initial state == prefill ++ source ++ pad with pad < capacity; scale probes (merged run and drain only): capacities 8 and 16 from structured (start, len, source length) states with batch sizes 0,1,cap-1,cap,cap+1; distinct by (initial state, history)", inits.len()));
     guard::set_hang_secs(300);
     let tot: Vec<(u64, u64)> = inits
         .par_iter()
